@@ -30,7 +30,7 @@ VERIF = Path(__file__).resolve().parent.parent
 COQ = VERIF / "coq"
 REPO = Path(os.environ.get("VERIF_REPO", "/repo"))
 WORK = VERIF / "work"
-EVID = VERIF / "evidence"
+EVID = Path(os.environ.get("VERIF_EVIDENCE_DIR") or (VERIF / "evidence"))  # developer runs against seeded changes redirect it
 FORBIDDEN = re.compile(
     r"\b(Admitted|admit|Axiom|Axioms|Parameter|Parameters|Conjecture|Abort All|Admit Obligations)\b"
     r"|Unset Guard|bypass_check|type-in-type|impredicative-set|Unset Positivity|Unset Universe"
@@ -492,7 +492,7 @@ def check(mod, tier="quick", seed=0, replay=None):
             },
         })
         ev["coverage"]["samples"] = json.loads(json.dumps(ev["coverage"]["samples"], default=str))
-        EVID.mkdir(exist_ok=True)
+        EVID.mkdir(parents=True, exist_ok=True)
         (EVID / f"{prop}.json").write_text(json.dumps(ev, indent=1, default=str))
         for ln in lines:
             print(ln)
